@@ -35,6 +35,7 @@ type frame struct {
 	depth     int
 	specBlock *ssa.BasicBlock
 	stackLen  int
+	cur       ssa.Instruction // instruction being executed (call sites for runtime.Caller)
 }
 
 // goPanicVal is a Go-level panic travelling up the interpreter stack.
@@ -276,6 +277,7 @@ func (ex *Exec) runFrame(fr *frame) {
 			if ex.steps > ex.maxSteps {
 				ex.unsupported("step budget exhausted (%d)", ex.maxSteps)
 			}
+			fr.cur = instr
 			switch ex.visit(fr, instr) {
 			case kReturn:
 				return
@@ -655,6 +657,14 @@ func (ex *Exec) tolerantCall(fr *frame, fv Value, args []Value, instr *ssa.Call)
 			case engineError:
 				if os.Getenv("GOSYM_DEBUG_INIT") != "" {
 					fmt.Fprintf(os.Stderr, "init: tolerated %v at %s\n", e.msg, ex.prog.Fset.Position(instr.Pos()))
+				}
+				res = zeroOfCall(instr)
+			case goPanicVal:
+				// a Go panic inside one initialiser expression (typically a nil
+				// reflect.Type produced by a tolerated reflect call): give up on
+				// that expression only, the other globals are still initialised
+				if os.Getenv("GOSYM_DEBUG_INIT") != "" {
+					fmt.Fprintf(os.Stderr, "init: tolerated panic %v at %s\n", e.msg, ex.prog.Fset.Position(instr.Pos()))
 				}
 				res = zeroOfCall(instr)
 			default:
